@@ -39,11 +39,13 @@ def run(ck):
     )
     ck.rule("REPR", "elements_as_bytes only under IS_CANONICAL; otherwise the elements are serialised")
     ck.rule("CHUNK", "last-chunk decision of the byte sponge uses a monotone chunk counter (all Rescue hashers agree)")
+    ck.rule("FAST", "the frequency-domain MDS product equals the product with the MDS table modulo p for every input (exact linear forms, engine E5b)")
     ck.rule("TABLE", "constant tables satisfy their defining equations (exact arithmetic on extracted constants)")
     ck.rule("SEP", "the capacity element written by each sponge entry depends on the input length")
     repr_rule(ck, prog)
     chunk_rule(ck, prog)
     table_rule(ck, prog)
+    fast_mds_rule(ck, prog)
     sep_rule(ck, prog)
 
 
@@ -179,6 +181,81 @@ def _loop_of(f, b):
         if (b, S) in reach(f, [(x, S)], include_starts=False) or x == b:
             res.add(x)
     return res
+
+
+def fast_mds_rule(ck, prog):
+    """For every Rescue hasher whose permutation multiplies by the MDS through winter_crypto::hash::mds (split into 32-bit limbs, real FFTs,
+    Hadamard product, reduction of the 96-bit results), the result word i is congruent modulo p to sum_j MDS[i][j] * state[j] for ALL
+    inputs — including the inputs for which the final 128->64 bit reduction carries, which no sampled test reaches."""
+    from ..linint import LinInterp, Undecided, IV, show_lin
+    n = 0
+    for name, info in RESCUE.items():
+        mod, p, w = info["mod"], info["p"], info["width"]
+        sites = [(f, t) for f in prog.fns.values() if f.nname.startswith(mod + "::") or f.nname.startswith("<" + mod + "::")
+                 for _, t in f.calls() if (callee_name(t) or "").startswith("winter_crypto::hash::mds::")]
+        targets = sorted({callee_name(t) for _, t in sites})
+        if not targets:
+            continue
+        mds = decode_matrix(prog.const(f"{mod}::MDS"), w, p)
+        for tn in targets:
+            fn = prog.fn(tn)
+            ck.saw(fn)
+            be = "winter_math::field::f64::BaseElement"
+
+            def scope(callee):
+                nn = callee.nname
+                return callee.kind != "closure" and (nn.startswith("winter_crypto::hash::mds::") or nn.startswith("winter_math::fft::real_u64::")
+                                                     or nn in (be + "::inner", be + "::from_mont"))
+            li = LinInterp(prog, p, scope, residue_adts=(be,))
+            ins = [li.atom(f"in[{j}]", 0, 2**64 - 1) for j in range(w)]
+            env0 = {"@state": [("adt", 0, [IV({a: 1}, 0, 2**64 - 1)]) for a in ins], 1: ("ref", "@state", ())}
+            key = f"{name}:{tn.split('::')[-2]}"
+            try:
+                outs = li.run(fn, env0)
+            except Undecided as e:
+                ck.note(f"FAST {key}: not decided ({e}); the clause is not claimed for this function on this tree")
+                continue
+            for nn in li.inlined:
+                ck.analysed["functions"].add(nn)
+            bad = None
+            for env, imprecise in outs:
+                st = env.get("@state")
+                for i in range(w):
+                    el = st[i] if isinstance(st, list) and len(st) == w else None
+                    v = el[2][0] if isinstance(el, tuple) and el and el[0] == "adt" and el[2] else None
+                    got = (v.lin if v.res else li.canon(v.lin)) if isinstance(v, IV) else None
+                    want = {ins[j]: mds[i][j] % p for j in range(w) if mds[i][j] % p}
+                    if got != want:
+                        if imprecise and got is None:
+                            continue
+                        bad = bad or (i, got, want, imprecise)
+            if not outs:
+                ck.note(f"FAST {key}: no returning path found; not decided")
+                continue
+            if bad and bad[3]:
+                ck.note(f"FAST {key}: a branch outside the domain was met; not decided")
+                continue
+            n += 1
+            detail = None
+            if bad:
+                i, got, want, _ = bad
+                ov = [f"{loc}: {txt}" for kind, loc, txt in li.events if kind == "overflow"][:3]
+                detail = {"word": i, "computed (mod p)": show_lin(got), "expected": show_lin(want), "possible overflows": ov}
+            ck.ob("FAST", key + ":equals-MDS-product", bad is None,
+                  f"{name}: for every input state, every path of {tn.split('::')[-1]} (callees spliced in: {len(li.inlined)}; abstract states "
+                  f"{li.stats['states']}, merged {li.stats['merged']}, case splits {li.stats['forks']}) stores in word i a value congruent modulo p to "
+                  f"sum_j MDS[i][j]*state[j]: limb decomposition, FFT/Hadamard/iFFT arithmetic without overflow, and the reduction of the carry of "
+                  f"the final fold are exact", loc=fn.loc(), detail=detail)
+    # positive control: dropping the carry of the final fold (2^64 = 2^32 - 1 mod p) must be recognised as a different residue
+    from ..linint import LinInterp as _LI, IV as _IV
+    p = RESCUE["Rp64_256"]["p"]
+    li = _LI(prog, p, lambda c: False)
+    a = li.atom("a", 0, 2**64 - 1)
+    b = li.atom("b", 0, 2**40)
+    cases = li.wrap_cases("add", _IV({a: 1}, 0, 2**64 - 1), _IV({b: 1}, 0, 2**40), "u64")
+    ck.control("FAST: a wrapping add that can carry yields two cases whose residues differ (the carry is worth 2^32-1 mod p)",
+               len(cases) == 2 and li.canon(cases[0][0].lin) != li.canon(cases[1][0].lin))
+    ck.floor("FAST: frequency-domain MDS functions decided", n, 1)
 
 
 def table_rule(ck, prog):
